@@ -120,7 +120,14 @@ def check_c14(pid, tier, replay):
     rng = random.Random(vc.seed() * 7919 + 14)
 
     def rerun(hist):
-        f, _, _ = vtrace.run_histories(pid + "r", HARNESS, TRACE, [hist], variant=variant_of(hist), nchunks=1)
+        # a threaded execution that differed from its solo runs is a schedule-dependent outcome: it is confirmed when it shows
+        # again within a few repetitions of the same execution (a single-threaded one must show again at once)
+        tries = 5 if hist and hist[0].get("mode") == "par" else 1
+        f = []
+        for _ in range(tries):
+            f, _, _ = vtrace.run_histories(pid + "r", HARNESS, TRACE, [hist], variant=variant_of(hist), nchunks=1)
+            if vtrace.first_failures(f, pid):
+                break
         return f
 
     if replay:
